@@ -86,6 +86,16 @@ pub fn parse_header(input: &[u8]) -> ParseResult<BlpHeader> {
         .read_u32_le()
         .map_err(|e| e.with_context("height field"))?;
 
+    // Zero dimensions and dimensions beyond what the format allows are rejected: they size
+    // allocations and pixel counts
+    if width == 0 || height == 0 || width > BLP_MAX_WIDTH || height > BLP_MAX_HEIGHT {
+        return Err(Error::OutOfBounds {
+            offset: width as usize,
+            size: height as usize,
+        }
+        .with_context("image dimensions are zero or exceed the maximum of the format"));
+    }
+
     if let BlpFlags::Old {
         extra, has_mipmaps, ..
     } = &mut flags
